@@ -153,7 +153,7 @@ impl Args {
         }
         // hang watchdog (CPU time of one evaluation, never wall-clock time)
         let budget = std::env::var("VERIF_HANG_BUDGET_S").ok().and_then(|v| v.parse::<f64>().ok())
-            .unwrap_or(if args.tier == Tier::Thorough { 900.0 } else { 300.0 });
+            .unwrap_or(if args.tier == Tier::Thorough { 900.0 } else { 150.0 });
         crate::shard::start_hang_watchdog(&args.prop, &args.root, budget);
         args
     }
